@@ -101,6 +101,7 @@ type Shared struct {
 	St     Stats
 	stop   bool
 	witSeen, witKept map[string]int
+	pops             int
 }
 
 // Engine is the per-worker exploration state.
@@ -750,9 +751,20 @@ func (sh *Shared) worker(id int, base *interpBase, wg *sync.WaitGroup) {
 			sh.mu.Unlock()
 			return
 		}
+		// depth first, but every fourth path starts from the shallowest pending alternative:
+		// when a budget cuts the exploration short, every top-level alternative of the
+		// harness has been entered rather than only the first ones in order
 		n := len(sh.queue) - 1
+		sh.pops++
+		if sh.pops%4 == 0 {
+			for k := range sh.queue {
+				if len(sh.queue[k]) < len(sh.queue[n]) {
+					n = k
+				}
+			}
+		}
 		prefix := sh.queue[n]
-		sh.queue = sh.queue[:n]
+		sh.queue = append(sh.queue[:n], sh.queue[n+1:]...)
 		sh.active++
 		sh.mu.Unlock()
 
